@@ -1,4 +1,5 @@
 pub mod env;
+pub mod events;
 pub mod explore;
 pub mod problems;
 pub mod report;
